@@ -59,6 +59,10 @@ class Calls:
                     names = cn.elts if isinstance(cn, ast.Tuple) else [cn]
                     parts = []
                     for c in names:
+                        if isinstance(c, ast.Name) and c.id in ("list", "dict", "tuple") and T.strip_opt(x.ty).k in ("list", "dict", "tuple", "vtuple"):
+                            k_ = T.strip_opt(x.ty).k
+                            parts.append(z3.BoolVal((c.id == "list" and k_ == "list") or (c.id == "dict" and k_ == "dict") or (c.id == "tuple" and k_ in ("tuple", "vtuple"))))
+                            continue
                         if ast.unparse(c) == "self.__class__":
                             # isinstance(other, self.__class__): exact class of self or subclass of it
                             selfv = s1.loc["self"]
@@ -189,6 +193,8 @@ class Calls:
     def ev_minmax(self, n: ast.Call, st: St, f: str):
         arg = n.args[0]
         out = []
+        if isinstance(arg, ast.GeneratorExp):
+            return self.ev_minmax_gen(n, arg, st, f)
         keys_of = None
         if isinstance(arg, ast.Call) and isinstance(arg.func, ast.Attribute) and arg.func.attr == "keys":
             keys_of = arg.func.value
@@ -219,6 +225,42 @@ class Calls:
                 )
             else:
                 raise Unsupported(f"{f}() of {c.ty}")
+            out.append((s1, SV(mk_int(m), T.INT)))
+        return out
+
+    def ev_minmax_gen(self, n: ast.Call, g: ast.GeneratorExp, st: St, f: str):
+        """max/min(E(x) for x in <dict view or list>) with a pure int-valued E."""
+        if len(g.generators) != 1 or g.generators[0].ifs or not isinstance(g.generators[0].target, ast.Name):
+            raise Unsupported("generator shape in max/min")
+        gen = g.generators[0]
+        it = gen.iter
+        mode, base = "plain", it
+        if isinstance(it, ast.Call) and isinstance(it.func, ast.Attribute) and it.func.attr in ("values", "keys") and not it.args:
+            mode, base = it.func.attr, it.func.value
+        out = []
+        for s1, c in self.ev(base, st):
+            s1 = s1.copy()
+            ct = T.strip_opt(c.ty)
+            m = fresh(f, IntS)
+            cmp = (lambda a, b: a <= b) if f == "max" else (lambda a, b: a >= b)
+            if ct.k == "dict":
+                k = z3.Const(f"k!mg{next(_fresh)}", V)
+                guard = self.dict_has(s1, c, k)
+                x = SV(k, ct.a[0]) if mode in ("keys", "plain") else SV(self.dict_val(s1, c, k), ct.a[1])
+                nonempty = self.dict_size(s1, c) >= 1
+                bound = k
+            elif ct.k in ("list", "vtuple"):
+                k = z3.Const(f"j!mg{next(_fresh)}", IntS)
+                guard = z3.And(0 <= k, k < self.list_len(s1, c))
+                x = SV(self.list_get(s1, c, k), self.elem_type(ct))
+                nonempty = self.list_len(s1, c) >= 1
+                bound = k
+            else:
+                raise Unsupported(f"{f}() generator over {c.ty}")
+            s1 = self.implicit_raise(s1, nonempty, "ValueError", f"L{n.lineno}.{f}-empty", f"argument of {f}() is not empty (else ValueError)", n.lineno)
+            e = SpecEval(self, s1, {**s1.loc, gen.target.id: x}, s1.entry, cur_class=self.cur_class).value(g.elt)
+            ev = as_i(e.term)
+            s1.pc = s1.pc + (z3.Exists([bound], z3.And(guard, ev == m)), z3.ForAll([bound], z3.Implies(guard, cmp(ev, m))))
             out.append((s1, SV(mk_int(m), T.INT)))
         return out
 
@@ -343,7 +385,7 @@ class Calls:
             return [(st, self.list_copy(st, o))]
         if m == "pop" and not vals:
             st = self.implicit_raise(st, ln >= 1, "IndexError", f"L{n.lineno}.pop-empty", "pop() from a non-empty list (else IndexError)", n.lineno)
-            v = self.read_typed(st, z3.Select(els, ln - 1), self.elem_type(o.ty))
+            v = self.list_read(st, o, ln - 1, self.elem_type(o.ty))
             st.heap["llen"] = z3.Store(st.h("llen"), r, ln - 1)
             return [(st, v)]
         if m == "insert" and z3.is_int_value(as_i(vals[0].term)) and as_i(vals[0].term).as_long() == 0:
@@ -468,9 +510,13 @@ class Calls:
         self.cur_module, self.cur_class, self.dyn_class = module, ci, dyn_class or (T.class_of(vals[0].ty) if (ci and vals and fn.name not in (ci.staticmethods | ci.classmethods)) else None)
         outer_try = self.try_stack
         self.inline_depth += 1
+        qual = f"{ci.name}.{fn.name}" if ci else fn.name
+        ic = self.reg.contracts.get(f"{module}:{qual}")
+        self.loop_ctx.append((self.loop_ordinals(fn), ic.loops if ic is not None else {}, qual + "/"))
         try:
             outs = self.exec_block(fn.body, s0)
         finally:
+            self.loop_ctx.pop()
             self.inline_depth -= 1
             self.cur_module, self.cur_class, self.dyn_class = saved[0], saved[1], saved[2]
             self.try_stack = outer_try
